@@ -33,6 +33,15 @@ def handle : Json → Except String Json := fun j => do
         ("d", jRat (circDist te tg)),
         ("he", jRat (headingBev te)), ("hg", jRat (headingBev tg)),
         ("dom", Json.bool (decide (InDom te) && decide (InDom tg) && decide (InDom t0)))])
+  | "analyzer" =>
+    -- the analyzer's yaw error column: pairs (te[i], tg[i]), ego yaw t0 of the map rendering
+    let tes ← getRatList j "te"
+    let tgs ← getRatList j "tg"
+    let t0 ← getRat j "t0"
+    let row := fun (p : Rat × Rat) => Json.mkObj [
+      ("err", jRat (analyzerYawError p.1 p.2)), ("errM", jRat (analyzerYawErrorMap t0 p.1 p.2)),
+      ("d", jRat (circDist p.1 p.2))]
+    pure (Json.mkObj [("pairs", jList row (tes.zip tgs))])
   | "prefix" =>
     -- the pre-fix (F3) weight, used only by the mutation notes / search messages
     let te ← getRat j "te"
